@@ -62,10 +62,16 @@ def run_impl(ids, frames):
             per_frame.append(got)
             break
         per_frame.append(got)
+    # final per-ID state: read from the private attributes the model mirrors. A refactoring that renames or restructures them must not
+    # crash the harness: the state is then reported as unobservable (the model line differs there = a broken correspondence, never exit 2;
+    # events and telegrams are still compared by the oracle)
     slots = []
-    for k in range(len(ids)):
-        d = m._telegram_data[k]
-        slots.append(f"({m._telegram_specified_len[k]} {'none' if d is None else hexa(bytes(d))} {m._telegram_last_rx_fragment_idx[k]})")
+    try:
+        for k in range(len(ids)):
+            d = m._telegram_data[k]
+            slots.append(f"({m._telegram_specified_len[k]} {'none' if d is None else hexa(bytes(d))} {m._telegram_last_rx_fragment_idx[k]})")
+    except Exception as e:  # noqa
+        slots = [f"(unobservable {type(e).__name__})"]
     line = f"(ok (events {' '.join(m.ev)}) (slots {' '.join(slots)}))"
     return line, teles, exc, per_frame
 
